@@ -197,12 +197,13 @@ def check_refs(case, agg):
         if exc is not None:
             w["exc"] = f"{type(exc).__name__}: {str(exc)[:200]}"
             return "referenced-run-raises", w
-        res = cs.results_manager.get_named_results("src")[0]
+        # (the results of THIS run: the last len(members) entries, should an implementation keep older ones around)
+        res = cs.results_manager.get_named_results("src")[-len(src_texts)]
         last = {"vars": dict(res.csvpath.variables), "rows": rows, "collected": [ln for ln in rows[1:] if ln[1].strip() != ""]}
         w["runs"].append(rows)
     cps.add_file(cs, "ufile", [["a"], ["1"], ["2"]], srcname="ufile.csv")
     # ---- read through a csvpath of the same instance and through the results manager, before any other run starts
-    allres = cs.results_manager.get_named_results("src")
+    allres = cs.results_manager.get_named_results("src")[-len(src_texts) :]
     final = {}
     for r_ in reversed(allres):
         final.update(r_.csvpath.variables)
